@@ -40,4 +40,35 @@ CANARIES = [
          edits=[(RL, """                        return Err(anemo::rpc::Status::new(""", """                        let _refusal: Result<(), _> = Err(anemo::rpc::Status::new(""")]),
     dict(id='q-block-mode-does-not-wait', unit='enum_limits', what='Block mode checks the quota once and goes on', expect=['enum_limits::rate_limit_histories'],
          edits=[(RL, "WaitMode::Block => limiter.until_key_ready(peer_id).await,", "WaitMode::Block => { let _ = limiter.check_key(peer_id); }")]),
+    # ---- the lifted call blocks under Verus contract (unit limits) ----
+    dict(id='vi-one-semaphore-for-everybody', unit='limits', what='all peers share one semaphore', expect=['InflightLimit::call::served_holding_a_permit_of_its_own_peer', 'InflightLimit::call::only_own_peers_entry_touched'],
+         edits=[(IL, "                    .entry(*peer_id)", "                    .entry(anemo::PeerId([0; 32]))")]),
+    dict(id='vi-no-permits-is-an-internal-error', unit='limits', what='a request over the limit is refused with InternalServerError', expect=['InflightLimit::call::block::body'],
+         edits=[(IL, """                    tokio::sync::TryAcquireError::NoPermits => {
+                        anemo::rpc::Status::new(StatusCode::TooManyRequests)
+                    }""", """                    tokio::sync::TryAcquireError::NoPermits => {
+                        anemo::rpc::Status::new(StatusCode::InternalServerError)
+                    }""")]),
+    dict(id='vi-semaphore-recreated-every-call', unit='limits', what='a fresh semaphore replaces the peer\'s on every request', expect=['InflightLimit::call::existing_semaphore_is_kept', 'InflightLimit::call::block::body'],
+         edits=[(IL, """                let semaphore_entry = inflight
+                    .entry(*peer_id)
+                    .or_insert_with(|| Arc::new(Semaphore::new(max_inflight)));
+                semaphore_entry.value().clone()""", """                inflight.insert(*peer_id, Arc::new(Semaphore::new(max_inflight)));
+                let semaphore_entry = inflight
+                    .entry(*peer_id)
+                    .or_insert_with(|| Arc::new(Semaphore::new(max_inflight)));
+                semaphore_entry.value().clone()""")]),
+    dict(id='vi-no-identity-served', unit='limits', what='a request without identity is served unlimited', expect=['InflightLimit::call::no_identity_is_refused', 'InflightLimit::call::block::body'],
+         edits=[(IL, """            let peer_id = req.peer_id().ok_or_else(|| {
+                anemo::rpc::Status::internal("inflight limiter missing request PeerId")
+            })?;""", """            let peer_id = match req.peer_id() { Some(p) => p, None => return inner.call(req).await };""")]),
+    dict(id='vq-refusal-without-hint', unit='limits', what='the refusal carries no wait-nanos hint', expect=['RateLimit::call::refusal_carries_positive_wait_hint'],
+         edits=[(RL, """                        )
+                        .with_header(WAIT_NANOS_HEADER, format!("{}", wait_time.as_nanos())));""", """                        ));""")]),
+    dict(id='vq-refused-request-still-served', unit='limits', what='a refused request is served all the same', expect=['RateLimit::call::over_quota_is_refused_outside_the_service', 'RateLimit::call::served_only_after_charged_to_own_peer'],
+         edits=[(RL, """                        return Err(anemo::rpc::Status::new(""", """                        let _ = Err::<(), _>(anemo::rpc::Status::new(""")]),
+    dict(id='vq-one-quota-for-everybody', unit='limits', what='every peer is charged to one key', expect=['RateLimit::call::served_only_after_charged_to_own_peer'],
+         edits=[(RL, "                    if let Err(e) = limiter.check_key(peer_id) {", "                    if let Err(e) = limiter.check_key(&anemo::PeerId([0; 32])) {")]),
+    dict(id='vq-block-mode-does-not-wait', unit='limits', what='Block mode serves without asking the limiter', expect=['RateLimit::call::served_only_after_charged_to_own_peer'],
+         edits=[(RL, "                WaitMode::Block => limiter.until_key_ready(peer_id).await,", "                WaitMode::Block => (),")]),
 ]
